@@ -261,3 +261,49 @@ def share_index_item(value, m):
                 go(x)
     go(value)
     return done[0]
+
+
+def intern_leaves(value, m):
+    """Make equal date / datetime / path leaves the very same Python object
+    (as `x.end = x.start` or a module-level constant does). The value stays
+    tree-shaped: those leaves are immutable scalars. Returns (value, number of
+    leaves that were replaced by an earlier equal one)."""
+    import datetime
+    import pathlib
+    from yv.common import is_gen_obj
+    pool = {}
+    n = [0]
+
+    def leaf(v):
+        if type(v) in (datetime.date, datetime.datetime) or isinstance(v, pathlib.PurePath):
+            k = (type(v), v)
+            if k in pool:
+                if pool[k] is not v:
+                    n[0] += 1
+                return pool[k]
+            pool[k] = v
+        else:
+            go(v)
+        return v
+
+    def go(v):
+        if is_gen_obj(v):
+            c = m.by[type(v).__name__]
+            for p in c.get('params', []):
+                if hasattr(v, p['name']):
+                    x = getattr(v, p['name'])
+                    y = leaf(x)
+                    if y is not x:
+                        setattr(v, p['name'], y)
+            ex = getattr(v, '_yatiml_extra', None)
+            if isinstance(ex, dict):
+                for k in list(ex):
+                    ex[k] = leaf(ex[k])
+        elif isinstance(v, list):
+            for i, x in enumerate(v):
+                v[i] = leaf(x)
+        elif isinstance(v, dict):
+            for k in list(v):
+                v[k] = leaf(v[k])
+    value = leaf(value)
+    return value, n[0]
